@@ -231,7 +231,7 @@ def spec_pair_histories(tier, seed, spec):
         if tier == 'thorough':
             strides = range(1, n + 1)
         else:
-            strides = sorted({1 + (seed * 7 + ri * 131 + j * 977) % n for j in range(4)})
+            strides = sorted({1 + 2 * ((seed * 7 + ri * 131) % (n // 2)), 2 + 2 * ((seed * 11 + ri * 57) % (n // 2 - 1))})   # one odd, one even
         for stride in strides:
             for start in range(math.gcd(n, stride)):
                 out.append(('spec_pairs', functools.partial(_build_spec, rid, stride, start)))
